@@ -12,15 +12,15 @@ import (
 
 func init() {
 	register("C17",
-		"all 18 string / list builtin names of the statement are registered as functions; every parameter of each influences its result (data flow or a branch on it); none is wired to the antonym of its name (lower/upper, startWith/endWith via prefix/suffix primitives, left/right slice ends, lpad/rpad side of the padding, trim trims, replace replaces all occurrences, find/contains use Index/Contains on (s, t) in that order); the `first index == len(s)-len(t)` suffix idiom (wrong for repeated substrings) is absent.",
+		"all 18 string / list builtin names of the statement are registered as functions; every parameter of each influences its result (data flow or a branch on it); none is wired to the antonym of its name (lower/upper, startWith/endWith via prefix/suffix primitives, left/right slice ends, lpad/rpad side of the padding, trim trims, replace replaces all occurrences, find/contains use Index/Contains on (s, t) in that order); the `first index == len(s)-len(t)` suffix idiom (wrong for repeated substrings) is absent. lower, upper, trim, replace, join, contains, find call their primitive on every path to a successful return.",
 		"the algebraic laws of the statement themselves (prefix/suffix/slice/pad algebra, clamping, regexp = RE2): they are value-level.",
 		runC17)
 	register("C18",
-		"all 15 numeric builtin names are registered as functions; every parameter influences the result; `& | ^` compute the machine AND / OR / XOR of both operands' integer values and `~` the complement of its operand's integer value, each flowing into the returned number; abs/ceil/floor/sqrt/exp/ln/log/max/min call the decimal operation of their own name on their argument (ln -> Log, log -> Log10) and not the opposite one.",
+		"all 15 numeric builtin names are registered as functions; every parameter influences the result; `& | ^` compute the machine AND / OR / XOR of both operands' integer values and `~` the complement of its operand's integer value, each flowing into the returned number; abs/ceil/floor/sqrt/exp/ln/log/max/min call the decimal operation of their own name on their argument (ln -> Log, log -> Log10) and not the opposite one. The 64-bit integer results of & | ^ ~ and toInt enter the number without passing float64; toString's number arm returns the decimal's own rendering unmodified; abs/ceil/floor/sqrt/exp/ln/log/round/toInt reach their primitive on every successful path.",
 		"numeric results (round within 1/2, roundBank ties-to-even, 15-digit accuracy of sqrt/exp/ln/log, toInt truncation).",
 		runC18)
 	register("C19",
-		"all 14 date builtin names are registered as functions; every parameter influences the result; date(y,m,d) calls time.Date with (y, Month(m), d) purely from its parameters in that order, four zero constants and time.Local; addDate calls AddDate on its time with (y,m,d) in order; each extractor returns a pure conversion of the Time method of its name on its parameter; millSecond is Unix time in milliseconds; useTimezone returns the error of LoadLocation(name) and otherwise date.In(location); timeFormat is date.Format(layout); now is time.Now() and toDay the local midnight of one Now() value.",
+		"all 14 date builtin names are registered as functions; every parameter influences the result; date(y,m,d) calls time.Date with (y, Month(m), d) purely from its parameters in that order, four zero constants and time.Local; addDate calls AddDate on its time with (y,m,d) in order; each extractor returns a pure conversion of the Time method of its name on its parameter; millSecond is Unix time in milliseconds; useTimezone returns the error of LoadLocation(name) and otherwise date.In(location); timeFormat is date.Format(layout); now is time.Now() and toDay the local midnight of one Now() value. addDate reaches t.AddDate on every successful path; millSecond is UnixMilli / UnixMicro/1e3 / UnixNano/1e6 on every return (not Unix()*1000).",
 		"calendar arithmetic itself (carry of out-of-range months and days, time zones): trusted to package time.",
 		runC19)
 }
